@@ -624,7 +624,7 @@ def plan_C01(ctx):
     K = ctx.q(6, 12)
 
     def build(corp):
-        return build_c01_corpus(ctx, corp, ctx.q(250, 2500), ctx.q(150, 1500))
+        return build_c01_corpus(ctx, corp, ctx.q(250, 2500), ctx.q(300, 2000))
 
     extra = {
         "bounds": {"advances_K": K, "loop_bound_n": "[-1,3]", "ints": "64-bit symbolic a, b; guards g1..g3 symbolic",
@@ -642,7 +642,7 @@ def plan_C02(ctx):
     K = ctx.q(6, 12)
 
     def build(corp):
-        counts = build_c01_corpus(ctx, corp, ctx.q(150, 1500), ctx.q(200, 1800), sample_seed_off=2, transform=gen.effectify)
+        counts = build_c01_corpus(ctx, corp, ctx.q(150, 1500), ctx.q(300, 2000), sample_seed_off=2, transform=gen.effectify)
         xs = gen.exprform_programs()
         for p in xs:
             corp.add(p)
@@ -680,7 +680,7 @@ def plan_C18(ctx):
         for lst in exh[:ctx.q(100, 137)]:
             ctr = gen.Ctr()
             bodies.append(gen.concretize(lst, ctr, []))
-        bodies += gen.sampled(rng, ctx.q(150, 1400), 10)
+        bodies += gen.sampled(rng, ctx.q(250, 1600), 10)
         for name, body in directed_c01():
             if name in ("sw_break_after_yield", "continue_yield_post", "continue_yieldfrom_post", "tagless_switch", "yielding_switch_ends_loop"):
                 continue
@@ -934,7 +934,7 @@ def plan_C07(ctx):
     K = ctx.q(6, 12)
 
     def build(corp):
-        counts = build_c01_corpus(ctx, corp, ctx.q(137, 2000), ctx.q(120, 1000), sample_seed_off=7)
+        counts = build_c01_corpus(ctx, corp, ctx.q(137, 2000), ctx.q(220, 1500), sample_seed_off=7)
         # effect-instrumented sample (evaluation points visible)
         rng = random.Random(ctx.seed * 7 + 77)
         n = 0
